@@ -34,6 +34,10 @@ var c19Exprs = []string{
 	"let $x = $ in a | $x.b",
 	"let $x = a, $x = b in $x",
 	"let $x = @ in b[*].[$x.a]",
+	// an undefined variable inside an expression reference is reported as such
+	// once the built-in applies the reference to an element
+	"sort_by(b, &$u)", "map(&$u, b)", "max_by(b, &$u)", "min_by(b, &$u)", "group_by(b, &$u)",
+	"let $x = a in map(&[$x, $y], b)", "b[*].[map(&$u, [@])]", "let $x = a in sort_by(b, &(a || $y))",
 }
 
 // H_C19_let: differential against the reference's environment-passing scopes.
